@@ -12,8 +12,8 @@ dir=$(python3 - "$d" <<'PY'
 import re,sys,json,os
 d=sys.argv[1]
 src=open(os.path.join(d,'demo_test.go')).read()
-m=re.search(r'[Bb]elongs in[^\n]*?((?:[A-Za-z0-9_.-]+/)+)', src)
-if m: print(m.group(1).rstrip('/'))
+m=re.search(r'[Bb]elongs in(?: the)?(?: directory| package)?:?\s*`?\.?/?([A-Za-z0-9_.-]+(?:/[A-Za-z0-9_.-]+)*)', src)
+if m and os.path.isdir(os.path.join('/repo', m.group(1).rstrip('/'))): print(m.group(1).rstrip('/'))
 else:
     m=re.search(r'go test[^\n]*?\./((?:[A-Za-z0-9_.-]+/)+)', src)
     if m: print(m.group(1).rstrip('/'))
